@@ -163,8 +163,10 @@ def snapshot(built, input_kwargs=None):
     cls_attrs = sorted((c.__name__, sorted((a, repr(getattr(c, a))) for a in ('name', 'attempts', 'delay', 'exceptions', 'use_default', 'tags', 'node_type')))
                        for c in built['classes'])
     gattrs = sorted((str(k), repr(v)) for k, v in g.graph.items())
+    # every other attribute of the DAG object itself (flags, caches): a run must not leave anything there either
+    dattrs = sorted((str(k), repr(v)) for k, v in vars(dag).items() if k not in ('graph', 'node_map'))
     return dict(nodes=nodes, edges=edges, node_map=nm, input_node=dag.input_node, output_node=dag.output_node,
-                classes=cls_attrs, graph_attrs=gattrs)
+                classes=cls_attrs, graph_attrs=gattrs, dag_attrs=dattrs)
 
 
 class Run:
@@ -491,4 +493,4 @@ def run_schedule(spec, sched, n_runs=1, overlap=False, inputs=None, tag='', step
 
 def _flat(s):
     return [('node', x) for x in s['nodes']] + [('edge', x) for x in s['edges']] + [('map', x) for x in s['node_map']] + \
-        [('cls', x) for x in s['classes']] + [('graph_attr', x) for x in s['graph_attrs']]
+        [('cls', x) for x in s['classes']] + [('graph_attr', x) for x in s['graph_attrs']] + [('dag_attr', x) for x in s.get('dag_attrs', [])]
